@@ -66,10 +66,16 @@ class Gram:
         return self.mk(k="any", want=[46])
 
     def seq(self, kids):
-        return self.mk(k="seq", kids=list(kids))
+        kids = list(kids)
+        if len(kids) == 1:
+            return kids[0]
+        return self.mk(k="seq", kids=kids)
 
     def choice(self, kids):
-        return self.mk(k="choice", kids=list(kids))
+        kids = list(kids)
+        if len(kids) == 1:        # the front-end has no choice (or sequence) of one element: "(e)" is e
+            return kids[0]
+        return self.mk(k="choice", kids=kids)
 
     def un(self, k, kid):
         return self.mk(k=k, kids=[kid])
